@@ -454,7 +454,9 @@ func (state *RuntimeState) validateUserTOTP(username string, OTPValue int, t tim
 	userRateLimit.failCount++
 	//every 5th bad try, make it wait an extra hour
 	if userRateLimit.failCount%numFailedTOTPChecksForTimeoutIncrease == 0 {
-		userRateLimit.lockoutExpirationTime.Add(time.Duration(3600) * time.Second)
+		lockoutHours := userRateLimit.failCount / numFailedTOTPChecksForTimeoutIncrease
+		userRateLimit.lockoutExpirationTime = time.Now().Add(
+			time.Duration(lockoutHours) * time.Hour)
 	}
 	userRateLimit.lastFailTime = time.Now()
 	state.totpLocalTateLimitMutex.Lock()
